@@ -231,7 +231,9 @@ class Report:
         os.makedirs(os.path.join(VERIF, "evidence"), exist_ok=True)
         unknown = 0
         seen = set()
-        for v in self.violations:
+        # violations decided on the implementation (with a failing input) are reported before broken ties
+        order = {"impl-vs-spec": 0, "model-vs-impl": 1}
+        for v in sorted(self.violations, key=lambda v: (v["no_failing_input"], order.get(v["kind"], 2))):
             sig = v["signature"]
             if sig in seen:
                 continue
